@@ -47,7 +47,9 @@ def run(ck, prog):
         "(Lexer::identifier / Lexer::bangoperator decision trees), the character predicate the "
         "operator scanner uses, and the dispatch table of grammar::statement::statement. The class "
         "completion clause is decided structurally (unfiltered iteration, one item per class, one "
-        "placeholder per template argument). Not decided: the completion context detection "
+        "placeholder per template argument; R20.8: the name map it walks is overwritten by every class "
+        "statement with the freshly allocated record, so a forward-declared class is described by its latest "
+        "declaration). Not decided: the completion context detection "
         "(which list is offered where).")
     ck.trusted = ["rustc MIR construction and constant evaluation", "core::str eq semantics"]
     ck.extra["exhaustive"] = True
@@ -58,6 +60,7 @@ def run(ck, prog):
     ck.rule("R20.5", "class completion iterates all classes unfiltered; one item per class; one placeholder per template arg")
     ck.rule("R20.6", "with trigger character `!` the bang operators are offered on every path")
     ck.rule("R20.7", "error recovery at statement level never swallows a token that starts a statement")
+    ck.rule("R20.8", "the class name map points at the latest declaration of each class")
 
     lx = lexer_tables(ck, prog)
     kw = lx["keywords"]          # literal -> kind
@@ -124,6 +127,49 @@ def run(ck, prog):
             ok = False
     ck.ob("R20.5", "push-per-class", ok, "every loop iteration reaches Vec::push before the next class",
           msg="some iteration of the class loop skips the push (a class would not be offered)")
+    # R20.8 ------------------------------------------------------------------
+    # the records complete_classes describes are the ones the class name map points at; a class is usually declared
+    # (`class X;`) before it is defined (`class X<int a> {..}`), each statement allocating its own record: the map must
+    # point at the most recent one, i.e. every registration overwrites the entry with the freshly allocated id.
+    from .. import prov as _prov
+    ib = prog.body("ide::symbol_map::SymbolMap::iter_class")
+    ck.anchor(ib is not None, "SymbolMap::iter_class not found")
+    fields = set()
+    for i, t in ib.calls():
+        if "HashMap" in (Body.callee(t) or ""):
+            for o in _prov.origins(ib, t["args"][0]):
+                if o[0] == "arg" and o[1] == 1 and o[2]:
+                    fields.add(o[2][0])
+    ck.anchor(len(fields) == 1, "the map iter_class iterates could not be identified")
+    field = next(iter(fields))
+    nw = 0
+    for pth, b in prog.bodies.items():
+        if b.crate != "ide.rlib" or not pth.startswith("ide::symbol_map::SymbolMap::") or b.parent:
+            continue
+        writes = []
+        for i, t in b.calls():
+            c = Body.callee(t) or ""
+            m = re.search(r"HashMap::<K, V, S, A>::(insert|entry|remove|clear|retain|get_mut|try_insert|extend|drain)$", c)
+            if not m:
+                continue
+            if any(o[0] == "arg" and o[1] == 1 and o[2][:1] == (field,) for o in _prov.origins(b, t["args"][0])):
+                writes.append((i, t, m.group(1)))
+        if not writes:
+            continue
+        nw += 1
+        ins = [(i, t) for i, t, k in writes if k == "insert"]
+        other = sorted({k for _, _, k in writes if k != "insert"})
+        fresh = bool(ins) and all(all(o[0] == "call" and str(o[1]).endswith("Arena::<T, A>::alloc") for o in _prov.origins(b, t["args"][2]))
+                                  for _, t in ins)
+        named = bool(ins) and all(all(o[0] == "arg" and o[2][-1:] == ("name",) for o in _prov.origins(b, t["args"][1])) for _, t in ins)
+        ck.ob("R20.8", "latest-declaration:%s" % pth.rsplit("::", 1)[-1], fresh and named and not other,
+              "`%s` is overwritten with the freshly allocated record under the record's own name" % field,
+              msg="%s writes the class name map `%s` %s: a class that is declared and later defined (`class X; .. class X<int a> "
+                  "{..}`) is completed from, and checked against, a record other than its latest declaration (wrong number of "
+                  "template-argument placeholders)" % (pth, field, ("through %s (conditional / first-wins)" % ", ".join(other)) if other
+                                                      else "with a value that is not the newly allocated record or a key that is not its name"))
+    ck.floor("R20.8", "functions writing the class name map", nw, 1)
+
     # R20.7 ------------------------------------------------------------------
     # the statement dispatcher's error arm never consumes a token that starts a statement: evaluated by abstract
     # interpretation of whatever that arm calls, entered with the tokens that reach the arm
